@@ -56,6 +56,7 @@ pub trait VK: Sized {
     const CMP: bool;
     fn open(db: &Database, name: &str, k: u16, version: u32) -> R<Self>;
     fn push(&mut self, v: Self::T);
+    fn cpush(&mut self, i: usize, v: Self::T) -> R<()>;
     fn truncate(&mut self, i: usize) -> R<()>;
     fn update(&mut self, _i: usize, _v: Self::T) -> R<()> {
         unreachable!()
@@ -83,6 +84,9 @@ macro_rules! common_vk {
     () => {
         fn push(&mut self, v: Self::T) {
             WritableVec::push(self, v)
+        }
+        fn cpush(&mut self, i: usize, v: Self::T) -> R<()> {
+            self.checked_push_at(i, v)
         }
         fn truncate(&mut self, i: usize) -> R<()> {
             self.truncate_if_needed_at(i)
@@ -363,6 +367,12 @@ fn run_one<V: VK>(steps: &[Value], cfg: &Cfg, st: &mut Stats, bidx: usize) {
                 "push" => {
                     for j in 0..b {
                         vr.push(V::T::enc(args[0], j as u64));
+                    }
+                    Ok(())
+                }
+                "cpush" => {
+                    for j in 0..b {
+                        vr.cpush(args[0] as usize * b + j, V::T::enc(args[1], j as u64))?;
                     }
                     Ok(())
                 }
